@@ -2,7 +2,7 @@
 
 Topology = seeded parent-closed set of 2..10 addresses (depth <= 4); every node is a real RF24Network /
 RF24NetworkRoutingOnly object on its own chip and MCU running the canonical update loop in its own task.
-Messages are sent one at a time; the destination of a direct message of >= 4 fragments is sometimes busy for 30-70 ms right after its radio stored one of the first fragments (explicit MCU-stall fault, nothing lost); a third of the nodes constructed with another address and re-addressed before start, a quarter with ret_sys_msg on, some with allow_multicast off; the history oracle runs at quiescence.
+Messages are sent one at a time; a quarter of the loss-free runs begin with a node's completely failed write to an absent neighbour; in a seventh a destination reads late while 2-4 messages of one type from different origins with coinciding frame ids wait in its queue; the destination of a direct message of >= 4 fragments is sometimes busy for 30-70 ms right after its radio stored one of the first fragments (explicit MCU-stall fault, nothing lost); a third of the nodes constructed with another address and re-addressed before start, a quarter with ret_sys_msg on, some with allow_multicast off; the history oracle runs at quiescence.
 
 Clauses (loss-free medium):
   delivered    the destination's application log holds the message once (bytes, type, origin) and write()/send() returned True
@@ -33,7 +33,7 @@ ASSUMPTIONS = ["fault-free claims: every node performs an SPI transaction in <= 
 CLAUSES = {"delivered": "delivered exactly once with identical bytes, type and origin; write() returns True",
            "nobody_else": "to no other node's queue", "intact": "identical bytes", "at_most_once": "exactly once",
            "mtu": "messages longer than 24 bytes travel as frames of at most 32 on-air bytes"}
-PROBES = ["collision", "max_rt", "fault:mcu_stall_on_rx", "readdressed"]
+PROBES = ["collision", "max_rt", "fault:mcu_stall_on_rx", "readdressed", "write_to_absent_neighbour_failed", "backlog_at_late_reader"]
 SHRINK_KEYS = ("msgs", "faults")
 CHUNK = 10
 MAX_INCONCLUSIVE = 0.02
@@ -111,7 +111,32 @@ def make(i, base_seed, tier):
         if frag and xr.random() < 0.2:
             nd["frag_toggled"] = True       # fragmentation was switched off for a while and on again before the run
     stall = None
-    direct_long = [m for m in msgs if len(netref.path(m["src"], m["dst"])) == 2 and m["len"] > 72]
+    if not lossy and xr.random() < 0.25:
+        # history: a node's earlier write to a neighbour that is not there failed completely (all retries); afterwards it takes part in
+        # the traffic like any other node
+        cands = [nd["addr"] for nd in nodes if nd["cls"] == "net" and netref.level(nd["addr"]) < 4]
+        if cands:
+            a_ = xr.choice(cands)
+            free = [a_ | (d << (3 * netref.level(a_))) for d in range(1, 6) if (a_ | (d << (3 * netref.level(a_)))) not in topo]
+            if free:
+                msgs.insert(xr.randint(0, len(msgs)), {"kind": "failed_write", "src": a_, "dst": xr.choice(free), "len": xr.randint(0, 24), "type": xr.randint(0, 127),
+                                                       "seed": xr.getrandbits(20), "api": "write"})
+    backlog = None
+    if not lossy and len(topo) >= 3 and xr.random() < 0.15:
+        # a destination whose application reads late: several messages from different origins wait in its queue - with coinciding
+        # frame ids (every device counts its own frames) and the same message type
+        d_ = xr.choice(topo)
+        srcs = xr.sample([a for a in topo if a != d_], min(len(topo) - 1, xr.randint(2, 4)))
+        fid_ = xr.choice([0, 1, 0xFFFF, xr.getrandbits(16)])
+        ty_ = xr.randint(0, 127)
+        for nd in nodes:
+            if nd["addr"] in srcs:
+                nd["fid"] = fid_
+                nd["cls"] = "net"
+            if nd["addr"] == d_:
+                nd["cls"] = "net"
+        backlog = {"dst": d_, "msgs": [{"src": a, "len": xr.choice([0, 5, 24, 30]) if frag else xr.randint(0, 24), "type": ty_, "seed": xr.getrandbits(20)} for a in srcs]}
+    direct_long = [m for m in msgs if m.get("kind") != "failed_write" and len(netref.path(m["src"], m["dst"])) == 2 and m["len"] > 72]
     if not lossy and direct_long and xr.random() < 0.6:
         # explicit fault: the destination of a direct message of >= 4 fragments is busy elsewhere for 30-70 ms right after its radio
         # stored one of the first fragments (the radio goes on acknowledging until its 3-level RX FIFO is full, then the sender's
@@ -124,7 +149,7 @@ def make(i, base_seed, tier):
         ar = stream(seed, "air")
         p = rng.choice([0.02, 0.05, 0.1, 0.2])
         faults = [{"n": n} for n in range(600) if ar.random() < p]
-    return {"seed": seed, "nodes": nodes, "msgs": msgs, "frag": frag, "lossy": lossy, "faults": faults, "stall_on_rx": stall,
+    return {"seed": seed, "nodes": nodes, "msgs": msgs, "frag": frag, "lossy": lossy, "faults": faults, "stall_on_rx": stall, "backlog": backlog,
             "tx_timeout": rng.choice([25, 25, 50]), "route_timeout": rng.choice([75, 75, 150])}
 
 
@@ -193,6 +218,16 @@ def _run(scn, w, net, res):
     sent = []   # (src, dst, type, bytes)
     addrs = {nd["addr"] for nd in scn["nodes"]}
     for m in scn["msgs"]:
+        if m.get("kind") == "failed_write":
+            if m["src"] in addrs and m["dst"] not in addrs and net.nodes[m["src"]].cls == "net":
+                def fail(node, m=m):
+                    from circuitpython_nrf24l01.network.structs import RF24NetworkHeader, RF24NetworkFrame
+                    return node.write(RF24NetworkFrame(RF24NetworkHeader(m["dst"], m["type"]), payload(m["seed"], m["len"])))
+                cf = net.call(m["src"], "write", fail, timeout=5000 * MS)
+                net.wait_quiet(quiet=5 * MS, timeout=2000 * MS)
+                if cf.done and cf.exc is None and cf.result is False:
+                    sim.count("write_to_absent_neighbour_failed")
+            continue
         if m["src"] not in addrs or m["dst"] not in addrs or m["src"] == m["dst"]:
             continue
         if net.nodes[m["src"]].cls != "net":
@@ -259,6 +294,34 @@ def _run(scn, w, net, res):
                 res.add("mtu", {"kind": "not_fragmented"}, "%d-byte message left its origin as %d frame(s)" % (m["len"], len(frames)))
         if res.violations:
             break
+    bl = scn.get("backlog")
+    if bl and not res.violations and bl["dst"] in net.nodes and not lossy:
+        D = net.nodes[bl["dst"]]
+        D.no_read = True
+        mark = len(D.log)
+        expect = []
+        for m in bl["msgs"][:6]:
+            if m["src"] not in net.nodes or net.nodes[m["src"]].cls != "net":
+                continue
+            data = payload(m["seed"], m["len"])
+
+            def do_b(node, m=m, data=data):
+                from circuitpython_nrf24l01.network.structs import RF24NetworkHeader, RF24NetworkFrame
+                return node.write(RF24NetworkFrame(RF24NetworkHeader(bl["dst"], m["type"]), data))
+            cb = net.call(m["src"], "write", do_b, timeout=5000 * MS)
+            net.wait_quiet(quiet=(scn.get("route_timeout", 75) // 3 + 3) * MS, timeout=3000 * MS)
+            expect.append((m["src"], m["type"], data, cb.result if cb.done else None))
+        D.no_read = False
+        net.call(bl["dst"], "read_all", lambda node: None, timeout=1000 * MS)
+        got_b = [(e[1], e[3], e[4]) for e in D.log[mark:]]
+        for (src_, ty_, data_, r_) in expect:
+            n_ = got_b.count((src_, ty_, data_))
+            if n_ != 1:
+                res.add("delivered", {"kind": "not_delivered_to_late_reader" if n_ == 0 else "duplicate_at_late_reader", "routed": len(netref.path(src_, bl["dst"])) > 2},
+                        "message %o -> %o (type %d, %d bytes) was dequeued %d times by a destination that read late (write() returned %r; %d messages waited, from %r)"
+                        % (src_, bl["dst"], ty_, len(data_), n_, r_, len(expect), [oct(x[0]) for x in expect]))
+                break
+        sim.count("backlog_at_late_reader", len(expect))
     net.shutdown()
     for k, nc in net.nodes.items():
         for (t, e, tb) in nc.update_exc:
